@@ -47,6 +47,11 @@ def oracle(ctx, case, io):
             # (the temporary directory of the process lies next to the root in these cases: anything created or removed in it
             #  - even for a moment - changes its modification time)
             files = {f["path"]: (f["dir"], f["size"], f.get("sha"), f.get("mtime") if f["path"].startswith("tmpdir") else None) for f in res.get("files") or []}
+            if case.get("keep_root") and prev_snap is not None and "root" in prev_snap and "root" not in files:
+                ctx.violation("the root directory itself is gone after the %s on %r (root written as %r in the configuration)" % (prev_step["kind"] if prev_step else "?", prev_step.get("repo") if prev_step else None, case["conf"].get("rootspell") or "clean"),
+                              oracles.hist(case, k - 1, None), "C16:root-directory-removed")
+                prev_snap = files
+                continue
             if prev_snap is not None and prev_step is not None:
                 changed = [p for p in set(files) | set(prev_snap) if files.get(p) != prev_snap.get(p)]
                 r = prev_step.get("repo")
@@ -150,9 +155,37 @@ def page_cases(ctx, first, n):
     return cases
 
 
+def prune_cases(ctx, first, n):
+    """directory store whose root directory is written in the configuration in a form that is not the cleaned one (a trailing
+    slash, ./, //, x/..): the only repository - a nested name - is emptied and collected, which removes its directory;
+    nothing outside that directory may go with it (the root directory and what lies above it stay)"""
+    import gcgen
+    rng = ctx.rng
+    cases = []
+    for i in range(n):
+        spell = ["slash", "dot", "double", "dotdot", ""][i % 5]
+        repo = rng.choice(["team/app", "a/b/c", "solo"])
+        conf = mkconf(store="dir", grace_ms=-1, rootspell=spell, tmpincase=True)
+        seed, secret = outside_seed()
+        blob = b"unreferenced-%d" % i
+        steps = [upload_post(repo, digest=dg("sha256", blob), body=blob), blob_get(repo, dg("sha256", blob))]
+        if i % 2:
+            cfg = b"{}"
+            m = image_manifest(desc(MT_CFG, cfg), [], annotations={"prune": str(i)})
+            steps += [upload_post(repo, digest=dg("sha256", cfg), body=cfg), manifest_put(repo, "t1", m, ctype=MT_OCI_M), manifest_delete(repo, "t1"), manifest_delete(repo, dg("sha256", m))]
+        steps += [gcgen.age_step(repo, "", 7200), gcgen.gc_step(repo), tag_list(repo), gcgen.gc_step(repo)]
+        st2 = [special("snapshot", kind="case")]
+        for s_ in steps:
+            s_["model"] = "(skip)"
+            st2 += [s_, special("snapshot", kind="case")]
+        cases.append(dict(id=first + i, conf=conf, steps=st2, contents=[blob], seed=seed, secret=secret, repos=[repo], keep_root=True))
+    return cases
+
+
 def make_cases(ctx, first):
     n, steps = (240, 30) if ctx.tier == "quick" else (6000, 45)
     cases = page_cases(ctx, first + 100000, 24 if ctx.tier == "quick" else 600)
+    cases += prune_cases(ctx, first + 200000, 10 if ctx.tier == "quick" else 200)
     rng = ctx.rng
     for i in range(n):
         store = ("dir", "mem", "dir")[i % 3]
